@@ -3629,9 +3629,9 @@ func (vm *Thread) opSelect() value.Value {
 	if !channelOpen {
 		var result value.Result
 		if chosenCase.Direction == reflect.SelectSend {
-			result = value.MakeErrResult(value.ChannelClosedPopError.ToValue())
-		} else {
 			result = value.MakeErrResult(value.ChannelClosedPushError.ToValue())
+		} else {
+			result = value.MakeErrResult(value.ChannelClosedPopError.ToValue())
 		}
 		vm.push(result.ToValue())
 		vm.push(value.SmallInt(chosenCaseIndex).ToValue())
